@@ -133,7 +133,9 @@ impl ReProgram {
                 let mut fp = fixed_position;
                 let mut mp = min_position;
                 for o in &sequence.operations {
-                    if matches!(o, Operation::Bol(_)) {
+                    // in multi-line mode '^' also matches after a newline, so
+                    // it does not pin the position to the start of the input
+                    if matches!(o, Operation::Bol(_)) && !self.flags.is_multi_line() {
                         fp = Some(0);
                     }
                     self.add_precondition(o.clone(), fp, mp);
